@@ -433,6 +433,99 @@ func (c *c15Rig) attachDetach() {
 	c.verifyLedger("attach/detach")
 }
 
+// pipelinedReplenish puts two replenish requests for the same account on the
+// same contract to a host whose contract lock waits for its holder: the second
+// arrives while the first is waiting for the renter's signature, signed
+// against the revision the first is about to produce. Together they top the
+// account up to the target, not beyond.
+func (c *c15Rig) pipelinedReplenish() {
+	e := c.e
+	e.Step()
+	ctx := context.Background()
+	_, acct := c.newAccount()
+	c.m.acct[acct] = types.ZeroCurrency
+	target := types.Siacoins(uint32(e.Range(1, 9)))
+	n0 := len(c.contractor.calls)
+	prev := c.committed[c.contract.ID]
+	first := c.contract
+	c.contractor.blockingLocks = true
+	reached, gate := make(chan struct{}), make(chan struct{})
+	once := false
+	c.hook = func(_ int, id types.Specifier, step int, st simrhp.Step, o proto4.Object, raw []byte) simrhp.Action {
+		if !once && id == proto4.RPCReplenishAccountsID && st.FromRenter && step == 2 {
+			once = true
+			close(reached)
+			<-gate
+		}
+		return simrhp.Pass
+	}
+	var err1, err2 error
+	var rp1, rp2 any
+	done1 := make(chan struct{})
+	go func() {
+		defer close(done1)
+		defer func() { rp1 = recover() }()
+		_, err1 = rhp4.RPCReplenishAccounts(ctx, c.tr, rhp4.RPCReplenishAccountsParams{Accounts: []proto4.Account{acct}, Target: target, Contract: first}, c.cs(), c.signer)
+	}()
+	second := false
+	select {
+	case <-reached:
+		if next, _, rerr := proto4.ReviseForReplenish(first.Revision, target); rerr == nil {
+			second = true
+			sc := first
+			sc.Revision = next
+			done2 := make(chan struct{})
+			go func() {
+				defer close(done2)
+				defer func() { rp2 = recover() }()
+				_, err2 = rhp4.RPCReplenishAccounts(ctx, c.tr, rhp4.RPCReplenishAccountsParams{Accounts: []proto4.Account{acct}, Target: target, Contract: sc}, c.cs(), c.signer)
+			}()
+			// let it reach the host, where it waits for the contract
+			time.Sleep(time.Duration(e.Range(5, 200)) * time.Millisecond)
+			close(gate)
+			<-done2
+		} else {
+			close(gate)
+		}
+	case <-done1:
+		close(gate)
+	}
+	<-done1
+	c.hook = nil
+	c.contractor.blockingLocks = false
+	if rp1 != nil {
+		panic(rp1)
+	}
+	if rp2 != nil {
+		panic(rp2)
+	}
+	waitQuiet()
+	for _, call := range c.contractor.calls[n0:] {
+		if call.revision == nil || call.err != nil {
+			continue
+		}
+		var sum types.Currency
+		for _, d := range call.deposits {
+			sum = sum.Add(d.Amount)
+			c.m.acct[d.Account] = c.m.acct[d.Account].Add(d.Amount)
+		}
+		if moved := prev.RenterOutput.Value.Sub(call.revision.RenterOutput.Value); !moved.Equals(sum) {
+			e.Violationf("C15.credit-matches-revision", "replenish-pipelined", "%s credited %v in total but the accompanying revision moves %v from renter to host", call.method, sum, moved)
+		}
+		c.committed[call.id] = *call.revision
+		prev = *call.revision
+	}
+	c.seenCall = len(c.contractor.calls)
+	e.Logf("two replenish requests for one account, the second while the first waits for the renter (sent: %v): err=%v / %v, account at %v, target %v", second, err1, err2, c.m.acct[acct], target)
+	e.Shape("replenish-pipelined", fmt.Sprint(second), fmt.Sprint(err1 != nil), fmt.Sprint(err2 != nil))
+	e.Fault("replenish-requests-pipelined")
+	if err1 == nil && !c.m.acct[acct].Equals(target) {
+		e.Violationf("C15.replenish-to-target", "replenish-accounts:pipelined", "two replenish requests with target %v for a fresh account, the second sent while the first was waiting for the renter's signature (errors: %v / %v), left the account at %v", target, err1, err2, c.m.acct[acct])
+	}
+	c.resync()
+	c.verifyLedger("pipelined replenish")
+}
+
 // drainOrder attaches several funded pools to one account, detaches one of
 // them (any position) and then pays for verifications beyond what a single
 // pool holds: the remaining pools are drawn on in the order they were attached.
@@ -551,7 +644,9 @@ func runC15(e *sim.Env) {
 	}
 	steps := e.Range(8, 24)
 	for i := 0; i < steps; i++ {
-		switch e.Pick(2, 3, 2, 3, 3, 2, 2, 1) {
+		switch e.Pick(2, 3, 2, 3, 3, 2, 2, 1, 1) {
+		case 8:
+			c.pipelinedReplenish()
 		case 7:
 			c.drainOrder()
 		case 0:
@@ -614,7 +709,7 @@ var _ = sim.NewEnv
 func init() {
 	register(&Prop{
 		ID: "C15", Run: runC15, Quick: 900, Thorough: 8000, Level: "exploration",
-		Rule:        "one run = a formed contract and 8-24 drawn operations over several accounts and pools: fund, replenish accounts / pools (lists with repeated entries and entries already above the target), attach (valid, signed by the account key, by a stranger, expired, flipped signature) and detach (account key, pool key, stranger), several funded pools attached to one account (one request or several), one of them detached again at a drawn position, then verifications until the funds run out, and read / write (1 in 4 with the upload cut half-way or before its first byte: no debit, nothing stored) / verify with the drawable funds (own balance, optionally split with an attached pool, which in half of those cases is attached a second time) at cost-1H, cost and cost+1H and with sectors the host does not store; every Credit*/DebitAccount call and every sector-store call is recorded with the global event number; oracles: credits equal the value the accompanying renter-signed revision moves, debits equal the priced cost (core's functions) and precede the sector access, no debit without service and no service without debit, insufficient funds deliver nothing / store nothing / debit nothing, replenish ends at max(before, target), attach/detach only with the right signature before expiry, and after every step every account and pool balance the host reports equals the model ledger; distinct = abstract trace; all runs non-trivial once a service RPC ran",
+		Rule:        "one run = a formed contract and 8-24 drawn operations over several accounts and pools: fund, replenish accounts / pools (lists with repeated entries and entries already above the target; two replenish requests for one account pipelined at a host whose contract lock waits for its holder), attach (valid, signed by the account key, by a stranger, expired, flipped signature) and detach (account key, pool key, stranger), several funded pools attached to one account (one request or several), one of them detached again at a drawn position, then verifications until the funds run out, and read / write (1 in 4 with the upload cut half-way or before its first byte: no debit, nothing stored) / verify with the drawable funds (own balance, optionally split with an attached pool, which in half of those cases is attached a second time) at cost-1H, cost and cost+1H and with sectors the host does not store; every Credit*/DebitAccount call and every sector-store call is recorded with the global event number; oracles: credits equal the value the accompanying renter-signed revision moves, debits equal the priced cost (core's functions) and precede the sector access, no debit without service and no service without debit, insufficient funds deliver nothing / store nothing / debit nothing, replenish ends at max(before, target), attach/detach only with the right signature before expiry, and after every step every account and pool balance the host reports equals the model ledger; distinct = abstract trace; all runs non-trivial once a service RPC ran",
 		Real:        []string{"rhp4.Server", "rhp4 RPC* client functions", "testutil.EphemeralContractor (accounts, pools, attachments) / EphemeralSectorStore behind recording wrappers", "wallets, chain.Manager"},
 		Stub:        []string{"transport: simrhp in-memory streams with typed relay", "disk: simdisk.DB"},
 		Assumptions: []string{"no fault is injected into the sector store: a host-side disk error after a legitimate debit is outside the statement"},
